@@ -253,6 +253,19 @@ func (s *tcpServer) run(database, body string) tcpResult {
 		}
 		return tcpResult{name: "ver", col: col, empty: new(chproto.ColUInt64)}
 	}
+	if q == "SHOW TABLES" { // round 8: answered with the connected host's tables (incl. ver / ver_dist), as a String column
+		rows, err := c.Query(ctx, "SHOW TABLES")
+		if err != nil {
+			return fail(err)
+		}
+		col := new(chproto.ColStr)
+		for rows.Next() {
+			var s string
+			_ = rows.Scan(&s)
+			col.Append(s)
+		}
+		return tcpResult{name: "name", col: col, empty: new(chproto.ColStr)}
+	}
 	if strings.HasPrefix(strings.ToUpper(q), "SELECT") || strings.HasPrefix(strings.ToUpper(q), "SHOW") {
 		_, err := c.Query(ctx, body)
 		if err != nil {
